@@ -438,13 +438,31 @@ func c14(r *mon.Run) {
 		}}
 	// whitespace: every one- and two-character whitespace string between and around the tokens of a fixed expression
 	wsChars := []string{" ", "\t", "\n", "\r", "\v", "\f", "\u00a0", "\u2028", "\x00", "\u0085"}
-	base := []string{"a", ".", "b", "[", "0", "]", "||", "'x'", "|", "[", "a", ",", "`1`", "]", "|", "abs", "(", "@", ")", ".", "f", "(", "&", "a", ",", "\"q\"", ")"}
-	baseSx, _ := parseSexpr(strings.Join(base, " "))
-	nws := len(wsChars) * (len(base) + 1)
+	bases := [][]string{
+		{"a", ".", "b", "[", "0", "]", "||", "'x'", "|", "[", "a", ",", "`1`", "]", "|", "abs", "(", "@", ")", ".", "f", "(", "&", "a", ",", "\"q\"", ")"},
+		// every bracket form directly behind every other one, behind a dot, a star, a pipe, a flatten and a filter
+		{"a", "[", "*", "]", "[", "*", "]", ".", "b", "[", "1", ":", "2", "]", "[", "*", "]", "[?", "c", "]", "[", "*", "]", "|", "*", ".", "d", "[", "*", "]", "[", "0", "]", "[", "*", "]"},
+		{"a", "[]", "[", "*", "]", ".", "*", "[", "*", "]", "[", ":", ":", "-1", "]", "[]", "[?", "!", "b", "]", "[", "-1", "]", ".", "{", "k", ":", "v", ",", "j", ":", "w", "}", ".", "k", "[", "*", "]"},
+		{"[", "*", "]", "[", "*", "]", "&&", "*", "[", "*", "]", "==", "[?", "a", "<", "`2`", "]", "[", "*", "]", ".", "[", "x", ",", "y", "]", "[", "*", "]", "||", "!", "(", "[", "*", "]", ")", "[", "*", "]"},
+	}
+	var baseSxs []string
+	baseOff := []int{0}
+	for _, b := range bases {
+		sx, _ := parseSexpr(strings.Join(b, " "))
+		baseSxs = append(baseSxs, sx)
+		baseOff = append(baseOff, baseOff[len(baseOff)-1]+len(b)+1)
+	}
+	nws := len(wsChars) * baseOff[len(bases)]
 	wsw := mon.Workload{Name: "whitespace-set", N: nws,
 		Do: func(i int, t *mon.Tally) {
 			w := wsChars[i%len(wsChars)]
 			pos := i / len(wsChars)
+			bi := 0
+			for pos >= baseOff[bi+1] {
+				bi++
+			}
+			pos -= baseOff[bi]
+			base, baseSx := bases[bi], baseSxs[bi]
 			var sb strings.Builder
 			for k, tk := range base {
 				if k == pos {
@@ -578,5 +596,52 @@ func c14(r *mon.Run) {
 			t.Nontrivial("after:" + f + s1)
 		}}
 	_ = jmespath.Search
-	r.Exec(quoted, raw, lit, numw, ident, wsw, pairs, after)
+	// long names and constants (whatever assembles a string in pieces - an inline buffer with an overflow, chunks between escapes -
+	// keeps the pieces in order): runs of plain characters of every length around 64 / 128 / 256 / 4096 before, between and after
+	// escaped delimiters and multi-byte characters, through all three layers
+	pieceLens := []int{1, 7, 31, 63, 64, 65, 100, 126, 127, 128, 129, 130, 150, 200, 255, 256, 257, 300, 511, 512, 513, 1000, 4095, 4096, 4097, 10000}
+	pieceSeps := []string{"'", "\\", "\"", "`", "\u00e9", "\U0001F600", "''", "'\\", "\n", "\\'x"}
+	longw := mon.Workload{Name: "long-names-and-constants-assembled-in-pieces", N: len(pieceLens) * len(pieceSeps) * 6, Batch: 50,
+		Do: func(i int, t *mon.Tally) {
+			L, sep, shape := pieceLens[i/6/len(pieceSeps)], pieceSeps[i/6%len(pieceSeps)], i%6
+			run := func(n int, c byte) string { return strings.Repeat(string(c), n) }
+			var sv string
+			switch shape {
+			case 0:
+				sv = run(L, 'x') + sep + "tail"
+			case 1:
+				sv = "a" + sep + run(L, 'y')
+			case 2:
+				sv = run(L, 'p') + sep + run(L/2+1, 'q') + sep + "r"
+			case 3:
+				sv = sep + run(L, 'm') + sep
+			case 4:
+				sv = run(L-1, 'x') + sep + run(3, 'z') + sep + run(L, 'w') + sep + "end"
+			default:
+				sv = strings.Repeat("ab"+sep, L/4+1)
+			}
+			type cs struct {
+				layer, expr string
+				doc, want   interface{}
+			}
+			var cases []cs
+			q := gen.EncodeString(sv, gen.EncMinimal, nil)
+			cases = append(cases, cs{"quoted identifier", q, map[string]interface{}{sv: c14Marker, "decoy": 1}, c14Marker}, cs{"literal", gen.LiteralLexeme(q), nil, sv},
+				cs{"literal in a list", "[" + gen.LiteralLexeme(q) + ", `1`]", map[string]interface{}{}, []interface{}{sv, float64(1)}})
+			if gen.RawSpellable(sv) {
+				rl := gen.RawLexeme(sv)
+				cases = append(cases, cs{"raw string", rl, nil, sv}, cs{"two raw strings", "[" + rl + ", 'short\\'one', " + rl + "]", map[string]interface{}{}, []interface{}{sv, "short'one", sv}})
+			}
+			for _, c := range cases {
+				for k, o := range []mon.Observed{apiSearch(c.expr, c.doc), apiCompiledSearch(c.expr, c.doc)} {
+					t.Eval()
+					if o.Panicked || o.Err != nil || !ref.Match(c.want, o.V) {
+						r.Violate(&mon.Violation{Workload: "long-names-and-constants-assembled-in-pieces", Index: i, API: []string{"Search", "Compile+Search"}[k], Expr: brief(c.expr), Expected: "the " + c.layer + " denotes exactly what is written: " + brief(strconv.QuoteToASCII(sv)), Observed: brief(o.String()), Class: "long " + c.layer})
+						return
+					}
+				}
+			}
+			t.Nontrivial("long:" + strconv.Itoa(i))
+		}}
+	r.Exec(quoted, raw, lit, numw, ident, wsw, pairs, after, longw)
 }
